@@ -108,7 +108,7 @@ def run(tier: str, seed: int, t0: float) -> int:
     stats.counts["replace_family_inside_isolating:ok"] = ok_ops
     for key, least in (("replace_family_inside_isolating:ok", 1500), ("delete_range:ok", 100), ("replace_range:ok", 100), ("lift_target:ok", 20), ("can_split:ok", 100), ("max_open:ok", 50)):
         if stats.counts.get(key, 0) < least:
-            raise core.MachineryError(f"vacuity gate: {key}={stats.counts.get(key, 0)} < {least}")
+            core.vacuity(out, f"vacuity gate: {key}={stats.counts.get(key, 0)} < {least}")
     return core.finish("C18", tier, seed, stats, out, t0,
                        rule="(document, range inside an isolating node, payload, replace-family operation) incl. the range covering the node's entire content; "
                             "lift_target for block ranges and can_split for positions inside isolating nodes; documents: TLC-generated shape-bounded documents of "
